@@ -371,6 +371,10 @@ class Unit:
             if prm["name"] == "_" and "ty" in prm:
                 edits.append(Edit(prm["span"][0], prm["ty"][0], lambda r, k_=k_: f"_p{k_}: "))
                 self.log("R14", relfile, src, prm["span"][0], f"{path}: parameter `_` named `_p{k_}`")
+        for ci, cl in enumerate(it.get("closures", [])):
+            for wi, w in enumerate(cl.get("wilds", [])):
+                edits.append(Edit(w[0], w[1], lambda r, ci=ci, wi=wi: f"_c{ci}_{wi}"))
+                self.log("R14", relfile, src, w[0], f"{path}: closure parameter `_` named `_c{ci}_{wi}`")
         # named return
         if it["ret"]:
             rs, re_ = it["ret"]
@@ -410,6 +414,7 @@ class Unit:
                 sel = opts["r10"]
                 want = None if sel is True else {int(x) for x in sel.split(",")}
                 optmode = "r10opt" in opts
+                idset = {int(x) for x in opts.get("r10id", "").split(",") if x != ""} if isinstance(opts.get("r10id"), str) else set()
                 for k, t in enumerate(it["tries"]):
                     if want is not None and k not in want:
                         continue
@@ -419,9 +424,14 @@ class Unit:
                     hint = "".join(parts.get(("tryexit", k), []))
                     ed = Edit(t["span"][0], t["span"][1], None)
 
-                    def f(r, ed=ed, os_=os_, oe_=oe_, hint=hint, optmode=optmode):
+                    ident = k in idset
+
+                    def f(r, ed=ed, os_=os_, oe_=oe_, hint=hint, optmode=optmode, ident=ident):
                         inner = r.render_inside(ed, os_, oe_)
                         h = f" proof {{ {hint} }}" if hint.strip() else ""
+                        if ident:
+                            # identity conversion (`impl<T> From<T> for T`): only type-checks when the error types are equal
+                            return f"(match {inner} {{ Ok(v__) => v__, Err(e__) => {{{h} return Err(e__) }} }})"
                         if optmode:
                             return f"(match {inner} {{ Some(v__) => v__, None => {{{h} return None }} }})"
                         return f"(match {inner} {{ Ok(v__) => v__, Err(e__) => {{{h} return Err(From::from(e__)) }} }})"
@@ -522,7 +532,7 @@ class Unit:
             if a_ not in sig_text:
                 raise AnchorLost(f"{where}: signature no longer contains `{a_}`")
             sig_text = sig_text.replace(a_, b_)
-            self.log("R5", relfile, src, sig_s, f"signature of {path}: `{a_}` -> `{b_}`")
+            self.log("R15" if "dyn " in a_ or "<S:" in b_ else "R5", relfile, src, sig_s, f"signature of {path}: `{a_}` -> `{b_}`")
         if "inherent" in opts:
             self.log("R5", relfile, src, sig_s, f"trait method {path} emitted as an inherent method")
         origin_sig = {"kind": "sig", "file": relfile, "fn": fname, "line": line_of(src, sig_s), "tags": tags}
